@@ -2784,6 +2784,12 @@ static PRECOMP_B195: [PointDuif; 16] = [
 
 // ========================================================================
 
+/// Verification hook (read-only): the private `UX_COMP` table.
+#[cfg(feature = "verif_hooks")]
+pub fn verif_ux_comp() -> &'static [u64; 16385] {
+    &UX_COMP
+}
+
 /// Let U_i = i*(2^240)*B  (i = 0 to 16384, B = generator).
 /// Let M_i = mapping of U_i into the Montgomery curve; if the y-coordinate
 /// of U_i is y_i, then the x-coordinate of M_i (in the Montgomery curve)
